@@ -95,6 +95,42 @@ def run(ctx):
         ok = bool(rets) and all(any(atom_is_type_test(a, "history") is False for a in guards_at(isd, x)) for x in rets)
         c.ob("R4", ok, isd, "doneness-skips-history", "a history child never makes a parallel state 'not done'" if ok else
              "the region loop of _is_state_done treats a history pseudo-state as a region: a parallel state with a history child can never complete", l)
+    # ---- R7 done-ness: every region must be done; a history child is skipped, not a reason to stop ----------
+    def _falsy(v):
+        return isinstance(v, ast.Constant) and not v.value
+    for l in loops:
+        rets = [x for s_ in l.body for x in ast.walk(s_) if isinstance(x, ast.Return)]
+        bad = [x for x in rets if not _falsy(x.value)] if rets else []
+        c.ob("R7", bool(rets) and not bad, isd, "region-loop-only-returns-false",
+             "inside the region loop the only verdict is 'not done'" if rets and not bad else
+             (f"'{stmt_text(bad[0])}' inside the region loop: a parallel state is declared done as soon as one region is inspected, "
+              f"i.e. while other regions are not final" if bad else "the region loop no longer returns 'not done' for an unfinished region"), (bad or [l])[0])
+        for t in [x for s_ in l.body for x in ast.walk(s_) if isinstance(x, ast.If) and any(atom_is_type_test(a, "history") is True for a in __import__("sa.cfg", fromlist=["split_atoms"]).split_atoms(x.test, True))]:
+            kinds = [type(y).__name__ for s_ in t.body for y in ast.walk(s_) if isinstance(y, (ast.Continue, ast.Break, ast.Return))]
+            c.ob("R7", kinds == ["Continue"], isd, "history-child-skipped-with-continue", "a history child is skipped and the remaining regions are still examined" if kinds == ["Continue"] else
+                 f"the history-child test leaves the region loop with {kinds or 'nothing'} instead of 'continue': the regions declared after a history child are not "
+                 f"examined, so the parallel state completes while one of them is not final (or is reported not done forever)", t)
+        g_ = cfg_of(isd.node)
+        after = [n for n in g_.nodes if n.kind == "stmt" and isinstance(n.ast, ast.Return) and n.ast not in rets and
+                 any(g_.can_reach(h, n.id, follow_exc=False) for h in g_.nodes_of(l)) and
+                 n.ast.lineno > l.end_lineno]
+        first_after = sorted(after, key=lambda n: n.ast.lineno)[:1]
+        ok = bool(first_after) and isinstance(first_after[0].ast.value, ast.Constant) and first_after[0].ast.value.value is True
+        c.ob("R7", ok, isd, "all-regions-done-returns-true", "when no region objected the parallel state is done" if ok else
+             "after the region loop the function does not return True: a parallel state whose regions are all final never completes", l)
+    comp = [x for x in own_nodes(isd.node) if isinstance(x, ast.If) and any(atom_is_type_test(a, "compound") is True for a in __import__("sa.cfg", fromlist=["split_atoms"]).split_atoms(x.test, True))]
+    if c.expect("R7", "compound branch of _is_state_done", len(comp), 1, isd, "_is_state_done no longer handles compound states: onDone of a compound state never fires"):
+        cb_ = comp[0]
+        rec = [x for s_ in cb_.body for x in ast.walk(s_) if isinstance(x, ast.Return) and isinstance(x.value, ast.Call) and norm(x.value.func).endswith("_is_state_done")]
+        c.ob("R7", bool(rec), isd, "compound-done-iff-active-child-done", "a compound state is done exactly when its active child is" if rec else
+             "the compound branch no longer returns the done-ness of the active child", cb_)
+        sel = [x for s_ in cb_.body for x in ast.walk(s_) if isinstance(x, ast.GeneratorExp) and "_active_state_nodes" in norm(x.generators[0].iter)]
+        okp = any(any((cp := compare_parts(cnd)) is not None and isinstance(cp[1], (ast.Eq, ast.Is)) and ".parent" in norm(cp[0]) + norm(cp[2]) for cnd in x.generators[0].ifs) for x in sel)
+        c.ob("R7", okp, isd, "active-child-is-a-child", "the active child is selected by 'parent is this state'" if okp else
+             "the active child of a compound state is no longer selected by its parent being that state", cb_)
+    fin = [x for x in own_nodes(isd.node) if isinstance(x, ast.If) and any(atom_is_type_test(a, "final") is True for a in __import__("sa.cfg", fromlist=["split_atoms"]).split_atoms(x.test, True))]
+    okf = any(isinstance(y, ast.Return) and isinstance(y.value, ast.Constant) and y.value.value is True for x in fin for y in x.body)
+    c.ob("R7", okf, isd, "final-is-done", "a final state is done" if okf else "a final state is no longer reported done: no onDone ever fires", isd.node)
     shared.descent_filters_history(ctx, "R4", kinds={"regions"})
     for v in VIEWS:
         if p.method(v, "_is_state_done").qualname != isd.qualname:
